@@ -28,6 +28,8 @@ POOL = [
     "STT_FUNC", "STT_ARM_TFUNC", "STT_SPARC_REGISTER", "STB_MIPS_SPLIT_COMMON", "STT_OBJECT", "STV_HIDDEN", "STB_GLOBAL",
     # strings
     '""', '"a"', '"ab"', '"b"', '"a\\x00"', '"a\\x00b"', '"\\xff"', '"\\x7f"', '"A"',
+    # equal up to and including an embedded NUL, different after it
+    '"a\\x00c"', '"\\x00"', '"\\x00a"', '"\\x00b"', '"a\\x00b\\x00"', '["a\\x00b"]', '["a\\x00c"]',
     # sequences
     "[]", "[1]", "[0x1]", "[3]", "[T_CONST]", "[1, 2]", "[2, 1]", '["a"]', "[[1]]", "[[]]", "[1, [2]]", '[1, "a"]', '["a", 1]',
     "[DW_TAG_member]", "[13]",
@@ -48,8 +50,12 @@ def run(ctx):
         # always: every pair of named / ELF constants and every pair of integers; a sample of the rest
         named = [i for i, v in enumerate(pool) if v.startswith(("ST", "DW_", "T_")) or v in ("true", "false", "1 type")]
         ints = [i for i, v in enumerate(pool) if v[0] in "-0123456789" and "aset" not in v]
+        strs = [i for i, v in enumerate(pool) if v.startswith('"') and " " not in v]
+        seqs = [i for i, v in enumerate(pool) if v.startswith("[") and v.endswith("]")]
+        asets = [i for i, v in enumerate(pool) if "aset" in v and "elem" not in v and "high" not in v]
         must = set(itertools.product(named, repeat=2)) | set(itertools.product(ints, repeat=2)) | \
-            set((i, i) for i in range(len(pool)))
+            set(itertools.product(strs, repeat=2)) | set(itertools.product(seqs, repeat=2)) | \
+            set(itertools.product(asets, repeat=2)) | set((i, i) for i in range(len(pool)))
         pairs = sorted(must | set(rng.sample(pairs, 700)))
     # one query per ordered pair yields a 12-bit signature: which comparison words hold
     def sigq(a, b):
